@@ -1079,6 +1079,7 @@ class Repo:
         """the string templates of codegen.py parsed with typed holes
         (DESIGN 2.2 / A.7).  Returns list of Template."""
         mod = self.modules.get('codegen')
+        Template._repo = self
         if mod is None:
             raise Undecided('bisturi/codegen.py not found')
         out = []
@@ -1262,12 +1263,28 @@ class Template:
 
     def _parse(self):
         lines = []
+        src_lines = []
         for line in self.text.split('\n'):
+            toks = HOLE.findall(line.strip())
+            if len(toks) >= 2 and HOLE.sub('', line.strip()) == '':
+                # several statement holes glued on one line: one hole per line
+                ind_ = line[:len(line) - len(line.lstrip())]
+                src_lines.extend(ind_ + mm.group(0) for mm in HOLE.finditer(line.strip()))
+            else:
+                src_lines.append(line)
+        for line in src_lines:
             m = HOLE.fullmatch(line.strip())
             if m:
                 key = m.group(1)
                 if key == 'comments':
                     lines.append(line.replace(m.group(0), '# <comments>'))
+                    continue
+                # a hole filled by a generator method that returns constant text for constant
+                # arguments (self.handlers_code(True, 'offset')): the text stands in the template
+                spliced = self._constant_text_of(key)
+                if spliced is not None:
+                    self.spliced = getattr(self, 'spliced', []) + [key]
+                    lines.extend(HOLE.sub(lambda mm: '__HOLE_%s__' % mm.group(1), l_) for l_ in spliced.rstrip('\n').split('\n'))
                     continue
                 # statement hole; indentation = that prescribed for the hole value
                 ind = line[:len(line) - len(line.lstrip())]
@@ -1282,6 +1299,53 @@ class Template:
             self.tree = ast.parse(textwrap.dedent(self.holed))
         except SyntaxError as e:
             self.error = str(e)
+
+    def _constant_text_of(self, key):
+        """the text of a hole whose value is ``self.<method>(<constants>)`` when that method is one
+        ``return <literal> % {<name>: <parameter>...}`` (or a bare literal): the literal with the
+        constants in place; None when it is anything else"""
+        v = self.values.get(key)
+        if isinstance(v, ast.BinOp) and isinstance(v.op, ast.Mod) and isinstance(v.left, ast.Name) and getattr(Template, '_repo', None) is not None:
+            # a module-level template constant
+            tree_ = Template._repo.modules.get(self.func.module, {}).get('tree')
+            binds_ = [st_.value for st_ in (tree_.body if tree_ is not None else []) if isinstance(st_, ast.Assign) and len(st_.targets) == 1
+                      and isinstance(st_.targets[0], ast.Name) and st_.targets[0].id == v.left.id]
+            if len(binds_) == 1 and isinstance(binds_[0], ast.Constant) and isinstance(binds_[0].value, str):
+                v = ast.BinOp(left=binds_[0], op=v.op, right=v.right)
+        if isinstance(v, ast.BinOp) and isinstance(v.op, ast.Mod) and isinstance(v.left, ast.Constant) and isinstance(v.left.value, str) and '\n' in v.left.value \
+                and isinstance(v.right, ast.Dict) and all(isinstance(k_, ast.Constant) and isinstance(v_, ast.Constant) for k_, v_ in zip(v.right.keys, v.right.values)):
+            # the same after the generator method was expanded in place
+            try:
+                return v.left.value % {k_.value: v_.value for k_, v_ in zip(v.right.keys, v.right.values)}
+            except Exception:
+                return None
+        if not (isinstance(v, ast.Call) and isinstance(v.func, ast.Attribute) and isinstance(v.func.value, ast.Name) and v.func.value.id == 'self'
+                and self.func.cls is not None and not v.keywords and all(isinstance(a, ast.Constant) for a in v.args)):
+            return None
+        m = self.func.cls.methods.get(v.func.attr)
+        if m is None or not isinstance(m.node, ast.FunctionDef):
+            return None
+        body = [b for b in m.node.body if not (isinstance(b, ast.Expr) and isinstance(b.value, ast.Constant))]
+        if len(body) != 1 or not isinstance(body[0], ast.Return) or body[0].value is None:
+            return None
+        params = [a.arg for a in m.node.args.args][1:]
+        if len(params) != len(v.args):
+            return None
+        bound = dict(zip(params, [a.value for a in v.args]))
+        r = body[0].value
+        if isinstance(r, ast.Constant) and isinstance(r.value, str):
+            return r.value
+        if isinstance(r, ast.BinOp) and isinstance(r.op, ast.Mod) and isinstance(r.left, ast.Constant) and isinstance(r.left.value, str) and isinstance(r.right, ast.Dict):
+            mp = {}
+            for k_, v_ in zip(r.right.keys, r.right.values):
+                if not (isinstance(k_, ast.Constant) and isinstance(v_, ast.Name) and v_.id in bound):
+                    return None
+                mp[k_.value] = bound[v_.id]
+            try:
+                return r.left.value % mp
+            except Exception:
+                return None
+        return None
 
     def hole_indent(self, key):
         """columns of indentation of a statement hole, from the ``indent(...,
